@@ -1073,6 +1073,13 @@ class Interp:
             self.raise_("TypeError", "'NoneType' object is not iterable")
         if is_num(v):
             self.raise_("TypeError", "number is not iterable")
+        if isinstance(v, VObj):
+            # objects with __iter__: a contract (stubs) or the class's own generator method (run eagerly)
+            info = self.obj_class(v) if isinstance(v.cls, tuple) else None
+            if info is None and ("%s.__iter__" % v.cls) in self.contracts:
+                return self.iterate_concrete(st, self.contracts["%s.__iter__" % v.cls](self, st, [v], {}))
+            if info is not None and "__iter__" in info.methods:
+                return self.iterate_concrete(st, self.call_method_node(st, v, info, "__iter__", [], {}))
         raise Unsupported("iteration over %r" % type(v).__name__)
 
     def e_Yield(self, st, fr, node):
